@@ -380,9 +380,14 @@ fn replay(a: &HashMap<String, String>) -> i32 {
         let ev = v["ev"].as_str().unwrap_or("filter");
         let mut ts: Vec<Tok> = serde_json::from_value(v["ts"].clone()).expect("tokens");
         fill_txt(&mut ts);
-        let src = match v.get("src").and_then(|s| s.as_str()) {
-            Some(s) => s.to_string(),
-            None => render(&ts),
+        let src = match (v.get("src").and_then(|s| s.as_str()), v.get("sep").and_then(|s| s.as_str())) {
+            (Some(s), _) => s.to_string(),
+            // a layout chosen by the model: the same white space in every gap that admits one
+            (None, Some(sep)) => {
+                let w = match sep { "lf" => "\n", "crlf" => "\r\n", "cr" => "\r", "wide" => " \n  ", _ => " " };
+                render_with(&ts, |_, c| if c == 0 || (sep == "tight" && c == 1) { String::new() } else { w.to_string() })
+            }
+            (None, None) => render(&ts),
         };
         let sch = v["sch"].as_u64().unwrap() as usize;
         let max = v["max"].as_u64().unwrap_or(128) as u16;
